@@ -473,6 +473,11 @@ class ErrorFinder(Normalizer):
             parent = leaf.parent
             if parent.type in ('classdef', 'funcdef'):
                 self.context = self.context.add_context(parent)
+        elif leaf.type == 'fstring_string':
+            # The literal text of an f-string is not code, rules that are
+            # looked up by value (e.g. for `yield`) must not see it.
+            self._check_type_rules(leaf)
+            return leaf.prefix + leaf.value
 
         # The rest is rule based.
         return super().visit_leaf(leaf)
